@@ -23,7 +23,7 @@
                    times -1 for pseudo-scalars (vorticity).
       [shift_lon]  nodal: z'[i, j] = z[(i + k) mod I, j].
       [flip_lat]   nodal: z'[i, j] = z[i, J-1-j]. *)
-From Dino Require Import Base.Ops Base.Sums Gen.DerivExprs.
+From Dino Require Import Base.Ops Base.Sums Gen.DerivExprs Model.Sigma Model.Implicit Model.PrimEq.
 Local Open Scope F_scope.
 
 (** *** row bookkeeping of the two layouts (integers only) *)
@@ -88,4 +88,16 @@ Section Symmetry.
     p a (J - 1 - j)%nat l - sgn_pow (l + sy_wav fast a) * p a j l.
   Definition rot_table_residual (fast : bool) (I k : nat) (c s : nat -> F) (f : marr) (i a : nat) : F :=
     f ((i + k) mod I)%nat a - (c (sy_wav fast a) * f i a - rot_s fast s a * f i (sy_partner fast a)).
+
+  (** *** nodal columns of the primitive equations (Model/PrimEq.v [NCol]) under the symmetries.
+      Parities of the per-node inputs under the reflection about the equator: u = cos_lat_u[0] even,
+      v odd, vorticity odd (pseudo-scalar), divergence, T', every tracer even, grad(lnps) = (even, odd),
+      sec2_lat even, Coriolis f odd.  [ncol_mirror] applies the signs; the node permutation itself
+      (j -> J-1-j) is a re-indexing of the family of columns. *)
+  Definition ncol_mirror (x : @NCol F) : @NCol F :=
+    mkNCol (n_u x) (fun k => - n_v x k) (fun k => - n_vort x k) (n_div x) (n_temp x)
+           (n_gx x) (- n_gy x) (n_sec2 x) (- n_f x).
+  (** the family of nodal columns assembled from nodal fields and the two grid tables *)
+  Definition mk_cols {P : Type} (U V Z D T : P -> nat -> F) (gx gy sec2 cor : P -> F) : P -> @NCol F :=
+    fun p => mkNCol (U p) (V p) (Z p) (D p) (T p) (gx p) (gy p) (sec2 p) (cor p).
 End Symmetry.
